@@ -217,6 +217,8 @@ class Interp(EngineBase):
             return BoundMethod(base, attr)
         if isinstance(base, ProcV) and attr == 'triggered':
             return Sym('bool', base.triggered)
+        if isinstance(base, Opaque) and base.what.startswith('path'):
+            return Opaque('path')
         if isinstance(base, (ListObj, DictObj, Record, PyList, Opaque, TupleV)):
             return BoundMethod(base, attr)
         if isinstance(base, str):
@@ -289,6 +291,15 @@ class Interp(EngineBase):
                 return base.items[idx]
         if isinstance(base, Opaque):
             return Opaque(f"{base.what}[...]")
+        if isinstance(base, Sym) and base.kind == 'ref' and base.cls in self.spec.entities and isinstance(idx, str):
+            # JSON object modelled as an entity: obj['key']
+            ent = self.spec.entities[base.cls]
+            if idx not in ent:
+                self.check_or_raise(False, 'KeyError', node, f"{base.cls}[{idx!r}]")
+                raise PathEnd('KeyError')
+            if ('has:' + idx) in ent:
+                self.check_or_raise(self.heap_read(base, 'has:' + idx).t, 'KeyError', node, f"{base.cls}[{idx!r}] optional key")
+            return self.heap_read(base, idx)
         if isinstance(base, Sym) and base.kind == 'num':
             # subscripting a number: TypeError in Python
             self.check_or_raise(False, 'TypeError', node, "subscript of a number")
@@ -333,7 +344,9 @@ class Interp(EngineBase):
                                         (isinstance(a, Sym) and a.kind == 'str') or (isinstance(b, Sym) and b.kind == 'str')):
             return self.concat(a, b)
         if isinstance(op, ast.Div) and isinstance(a, Opaque) and a.what == 'path':
-            return Opaque('path')
+            o = Opaque('path')
+            o.arg = self.as_int_term(b)
+            return o
         for v in (a, b):
             if isinstance(v, EnumConst) or (isinstance(v, Sym) and v.kind in ('enum', 'ref', 'str')) or v is None \
                     or isinstance(v, (ListObj, DictObj, Record, ObjV)):
@@ -480,6 +493,11 @@ class Interp(EngineBase):
         return self.as_int_term(a) == self.as_int_term(b)
 
     def contains(self, coll, x, node):
+        if isinstance(coll, Sym) and coll.kind == 'ref' and coll.cls in self.spec.entities and isinstance(x, str):
+            ent = self.spec.entities[coll.cls]
+            if ('has:' + x) in ent:
+                return self.heap_read(coll, 'has:' + x).t
+            return z3.BoolVal(x in ent)
         if isinstance(coll, ListObj):
             return self.list_contains(coll, x)
         if isinstance(coll, DictObj):
@@ -647,6 +665,12 @@ class Interp(EngineBase):
         if isinstance(base, DictObj):
             return self.dict_set(base, idx, val)
         if isinstance(base, Opaque):
+            return
+        if isinstance(base, Sym) and base.kind == 'ref' and base.cls in self.spec.entities and isinstance(idx, str) \
+                and idx in self.spec.entities[base.cls]:
+            self.heap_write(base, idx, val)
+            if ('has:' + idx) in self.spec.entities[base.cls]:
+                self.heap_write(base, 'has:' + idx, True)
             return
         raise OutOfSubset(f"subscript store on {type(base).__name__} at line {getattr(node, 'lineno', '?')}")
 
